@@ -84,6 +84,30 @@ class Creators:
     else:
       return string.split(gfapy.Line.SEPARATOR, 1)[0]
 
+  def __parsed_line_queue(self, version):
+    """Parse the lines kept by side, for the version which is going to be set.
+
+    Lines which are not compatible with that version raise an error here,
+    i.e. before the version is set and before anything else is changed.
+    """
+    if version not in gfapy.VERSIONS:
+      return self._line_queue
+    parsed = []
+    for gfa_line in self._line_queue:
+      if isinstance(gfa_line, str):
+        gfa_line = gfapy.Line(gfa_line, vlevel=self._vlevel,
+            version=version, dialect=self._dialect)
+      else:
+        incompatible = gfapy.Lines.GFA2Specific if version == "gfa1" \
+                       else gfapy.Lines.GFA1Specific
+        if gfa_line.__class__ in incompatible:
+          raise gfapy.VersionError(
+            "Version: {}\n".format(version)+
+            "Cannot add instance of incompatible line type "+
+            str(type(gfa_line)))
+      parsed.append(gfa_line)
+    return parsed
+
   def __add_line_unknown_version(self, gfa_line):
     if isinstance(gfa_line, str):
       rt = self.__record_type_of_string(gfa_line)
@@ -105,6 +129,9 @@ class Creators:
           gfa_line.VN not in ["1.0", "2.0"]:
         raise gfapy.VersionError(
           "GFA specification version {} not supported".format(gfa_line.VN))
+      if gfa_line.VN:
+        self._line_queue = self.__parsed_line_queue(
+            {"1.0": "gfa1", "2.0": "gfa2"}.get(gfa_line.VN))
       self.header._merge(gfa_line)
       if gfa_line.VN:
         if gfa_line.VN == "1.0":
@@ -121,6 +148,7 @@ class Creators:
       if isinstance(gfa_line, str):
         gfa_line = gfapy.Line(gfa_line, vlevel=self._vlevel,
             dialect=self._dialect)
+      self._line_queue = self.__parsed_line_queue(gfa_line.version)
       self._version = gfa_line.version
       self._version_explanation = \
           "implied by: syntax of S {} line".format(gfa_line.name)
@@ -130,6 +158,7 @@ class Creators:
       if isinstance(gfa_line, str):
         gfa_line = gfapy.Line(gfa_line, vlevel=self._vlevel,
             version="gfa2", dialect=self._dialect)
+      self._line_queue = self.__parsed_line_queue("gfa2")
       self._version = "gfa2"
       self._version_explanation = "implied by: presence of a {} line".format(rt)
       self.process_line_queue()
